@@ -16,7 +16,7 @@ pub const L_POLL: u64 = 4096;
 pub const L_AFTER: u64 = 256;
 pub const HARD: u64 = 2_000_000;
 
-pub const RULE: &str = "valid positions: the C05 mixture, the general mixture (full middlegames) and explosive shapes (rows of pawns one step from promotion on both sides, several queens, long checking sequences), depth 1..5 (or 64 as with a clock-only go), x optional earlier searches without deadline on the same engine (same or neighbouring position, depth 1..4) x expiry point k (node-count deadline through the SearchTimer hook: at node k the timer's own limit becomes zero, the engine's real deadline test decides): k log-uniform in 1..300k (thorough 3M), and ALL k in 1..T-1 for small searches. Oracle on instrumentation counters after find_best_move returns: first poll that sees the expired budget comes <= 4096 nodes after expiry; <= 256 further nodes are expanded after that observation; the search returns at all (hard cap k+2M nodes turns 'never stops' into a caught panic). Non-trivial = the deadline fell inside the search (a poll returned true before the search would have finished); distinct by (FEN, depth, k). Black-box layer (real binary, real clock): go movetime T / a clock with T left / depth 64 movetime T, T in 0..300 ms (one case in seven 700..1500 ms), on explosive, middlegame and game positions, optionally after an earlier search in the same process; CPU time consumed between go and bestmove <= T + 300 ms (non-trivial = the last completed iteration is below depth 64, i.e. the clock ended the search).";
+pub const RULE: &str = "valid positions: the C05 mixture, the general mixture (full middlegames) and explosive shapes (rows of pawns one step from promotion on both sides, several queens, long checking sequences), depth 1..5 (or 64 as with a clock-only go), x optional earlier searches without deadline on the same engine (same or neighbouring position, depth 1..4) x expiry point k (node-count deadline through the SearchTimer hook: at node k the timer's own limit becomes zero, the engine's real deadline test decides): k log-uniform in 1..300k (thorough 3M), and ALL k in 1..T-1 for small searches. Oracle on instrumentation counters after find_best_move returns: first poll that sees the expired budget comes <= 4096 nodes after expiry; <= 256 further nodes are expanded after that observation; the search returns at all (hard cap k+2M nodes turns 'never stops' into a caught panic). Non-trivial = the deadline fell inside the search (a poll returned true before the search would have finished); distinct by (FEN, depth, k). Black-box layer (real binary, real clock): go movetime T / a clock with T left / depth 64 movetime T, T in 0..300 ms (one case in seven 700..1500 ms), on explosive, middlegame and game positions, optionally after an earlier depth-limited search in the same process (half of them with a generous move time or clock of their own, which they do not use up); CPU time consumed between go and bestmove <= T + 300 ms (non-trivial = the last completed iteration is below depth 64, i.e. the clock ended the search).";
 
 thread_local! {
     static KMAX: Cell<u64> = Cell::new(300_000);
@@ -200,7 +200,17 @@ fn part_blackbox(bytes: &[u8], stats: &mut Stats) -> Verdict {
     if warm {
         // an earlier depth-limited search of the same position, possibly longer than the budget of the go under test
         script.push(format!("position fen {}", fen));
-        script.push(format!("go depth {}", warm_depth));
+        // ... with or without a budget of its own that it does not use up (a depth-limited search
+        // under a generous move time or clock ends early: whatever it leaves unused is not the next
+        // search's to spend)
+        script.push(match s.below(4) {
+            0 | 1 => format!("go depth {}", warm_depth),
+            2 => format!("go depth {} movetime {}", warm_depth, *s.pick(&[1500u64, 3000, 6000])),
+            _ => format!("go depth {} wtime 200000 btime 200000 winc 0 binc 0", warm_depth),
+        });
+        if script.last().map(|l| l.contains("time")).unwrap_or(false) {
+            stats.class("blackbox_after_an_earlier_timed_search_that_ended_early");
+        }
     }
     script.push(format!("position fen {}", fen));
     judge_blackbox(&script, &go, t_ms, kind, stats)
